@@ -136,7 +136,7 @@ func genDL(t *rapid.T) DLCase {
 	if c.WebSeed || rapid.IntRange(0, 3).Draw(t, "bws") == 0 {
 		c.BadWebSeed = rapid.IntRange(0, 3).Draw(t, "badws")
 	}
-	if c.SeedPeer && c.WebSeed && c.BadWebSeed == 0 && !c.Magnet && rapid.IntRange(0, 2).Draw(t, "wsstall") == 0 {
+	if c.SeedPeer && c.WebSeed && c.BadWebSeed == 0 && !c.Magnet && rapid.IntRange(0, 2).Draw(t, "wsstall") != 0 {
 		c.WSStall = &WSStall{Nth: rapid.IntRange(1, 2).Draw(t, "wsnth"), AtByte: rapid.SampledFrom([]int{0, 1, 100, 20000}).Draw(t, "wsat"), Ms: 4000}
 	}
 	c.ReqOut = rapid.SampledFrom([]int{1, 2, 8, 250}).Draw(t, "reqout")
